@@ -128,12 +128,13 @@ Example ex1_code :
   = Some (P, 11, [1; 2]%N, [1; 2]%N, [1; 10; 0], [0; 0; 0]).
 Proof. vm_compute. reflexivity. Qed.
 
-(* book 2: duplicate prices, a binding cap, two different valid sweep orders, supply 80 *)
+(* book 2: duplicate prices, a binding cap, supply 80; of the two sweep orders with non-increasing prices only the one
+   that keeps the equal-priced bids 2 and 3 in the order of their ids is valid *)
 Example ex2_wf : book_wfb ex2_bids ex2_al = true.
 Proof. vm_compute. reflexivity. Qed.
 Example ex2_orders :
   option_map (map b_id) (valid_order ex2_bids ex2_order_a) = Some ex2_order_a /\
-  option_map (map b_id) (valid_order ex2_bids ex2_order_b) = Some ex2_order_b.
+  valid_order ex2_bids ex2_order_b = None.
 Proof. vm_compute. split; reflexivity. Qed.
 Example ex2_demand :
   map (total_demand ex2_bids ex2_al) [P; 2 * P; 2 * P + P / 2; 3 * P] = [117; 73; 32; 30].
@@ -144,8 +145,7 @@ Proof. vm_compute. split; reflexivity. Qed.
 Example ex2_code_a :
   ex2_run ex2_order_a = Some (2 * P, 73, [1; 5; 2; 3]%N, [1; 2; 3]%N, [40; 33; 0; 0], [70; 1; 40; 0]).
 Proof. vm_compute. reflexivity. Qed.
-Example ex2_code_b :
-  ex2_run ex2_order_b = Some (2 * P, 73, [1; 5; 3; 2]%N, [1; 2; 3]%N, [40; 33; 0; 0], [70; 1; 40; 0]).
+Example ex2_code_b : ex2_run ex2_order_b = None.
 Proof. vm_compute. reflexivity. Qed.
 (* nothing fits: supply 20 is below the demand at every bid price *)
 Example ex2_none :
